@@ -129,6 +129,17 @@ def run_case(ns, mon, case):
         res["linear(only weight req)"] = (sg.linear(cb, T(np.ones((3, 2)), requires_grad=True), T(np.zeros(3))), True)
         res["conv1d(only bias req)"] = (sg.conv1d(T(np.ones((1, 1, 4))), T(np.ones((2, 1, 2))), T(np.zeros(2), requires_grad=True)), True)
         res["mse(pred req)"] = (sg.mse_loss(x64, c64), True)
+        # ops that may hand back their operand unchanged must still produce a result that follows the mode
+        res["reshape(same shape)"] = (m22.reshape((2, 2)), True)
+        res["reshape(-1 same)"] = (x64.reshape((-1,)), True)
+        res["flatten(no-op)"] = (x64.flatten(), True)
+        res["squeeze(nothing to squeeze)"] = (m22.squeeze(), True)
+        res["transpose(d,d)"] = (m22.transpose(0, 0), True)
+        res["movedim(d,d)"] = (m22.movedim(1, 1), True)
+        res["index(full slice)"] = (x64[:], True)
+        res["mul by 1"] = (x64 * 1.0, True)
+        res["add 0"] = (x64 + 0.0, True)
+        res["pow 1"] = (x64 ** 1, True)
         res["stack(const first)"] = (sg.stack([c64, x64], 0), True)
         res["concat(const first)"] = (sg.concat([c64, x64], 0), True)
         res["addmm(only a req)"] = (sg.addmm(T(np.zeros((2, 2)), requires_grad=True), T(np.ones((2, 2))), T(np.ones((2, 2)))), True)
@@ -161,6 +172,17 @@ def run_case(ns, mon, case):
                     counters["integer_requires_grad_silently_dropped"] = counters.get("integer_requires_grad_silently_dropped", 0) + 1
             except RuntimeError:
                 pass
+            # dtype= conversions: what counts is the dtype the tensor ends up with
+            for how, mk in (("float data, integer dtype", lambda: T(np.array([1.0, 2.0]), dtype=dt, requires_grad=True)),
+                            ("ones factory", lambda: sg.ones(2, dtype=dt, requires_grad=True)),
+                            ("zeros factory", lambda: sg.zeros((2, 2), dtype=dt, requires_grad=True)),
+                            ("arange factory", lambda: sg.arange(3, dtype=dt, requires_grad=True))):
+                try:
+                    tc = mk()
+                    if tc.requires_grad and not np.issubdtype(tc.dtype, np.floating):
+                        bad("guards:integer-tensor-requires-grad", f"{how}: a {tc.dtype} tensor requires grad")
+                except RuntimeError:
+                    pass
             ti = T(np.array([1, 2, 3], dtype=dt))
             try:
                 ti.requires_grad = True
